@@ -214,7 +214,12 @@ fn oracle_roundtrip(line: &str, esc: &Escaper, x: &Expectation, s: &str, back: &
         // Regression class (fixed by c1bf05c, not a known finding): bytes ending in ` (no-eol)`
         // written as an `escaped` expectation lost that suffix (EscapedRule::make strips it).
         // Everything else is reported under the generic class.
-        if (k == "regex" || k == "no-eol") && esc.has_unprintable(&e) {
+        if k == "glob" && (e.ends_with(b" (esc)") || e.ends_with(b" (escaped)")) {
+            // open finding: a glob reads a trailing ` (esc)` / ` (escaped)` of its expression as the Cram annotation and
+            // strips it; a pattern that ends in that text (possible only as `… (esc) (escaped) (glob)`) is written
+            // back without the guard
+            "C08:glob-annotation-lookalike-roundtrip"
+        } else if (k == "regex" || k == "no-eol") && esc.has_unprintable(&e) {
             "C08:escaped-pattern-roundtrip"
         } else if ((k == "equal" && esc.has_unprintable(&e)) || k == "escaped") && printable.ends_with(" (no-eol)") {
             "C08:escaped-no-eol-strip-roundtrip"
@@ -371,12 +376,13 @@ fn escapers() -> [Escaper; 2] {
 
 /// nested modifier templates: prefix x white x kind-ish x quantifier-ish x tail
 fn structured(idx: u64) -> Option<String> {
-    const PRE: [&str; 9] = ["", "foo", "foo ", "a (glob)", "a (b)", "a ()", "a (equal) (re?)", "(", "foo\\"];
+    const PRE: [&str; 11] = ["", "foo", "foo ", "a (glob)", "a (b)", "a ()", "a (equal) (re?)", "(", "foo\\", "foo? (esc) (escaped)", "a (escaped) (esc)"];
     const WH: [&str; 7] = [" ", "\t", "\u{a0}", "\u{3000}", "\u{85}", "", "  "];
     const KI: [&str; 16] = ["", "equal", "eq", "no-eol", "escaped", "esc", "glob", "gl", "regex", "re", "equa", "globx", "Glob", "e q", "no-eo", "(re"];
     const QU: [&str; 7] = ["", "?", "*", "+", "??", "+*", "!"];
     const TL: [&str; 6] = ["", " ", ")", " (no-eol)", " (escaped)", " (no-eol) (esc)"];
     let n = (PRE.len() * WH.len() * KI.len() * QU.len() * TL.len()) as u64;
+    debug_assert_eq!(n, STRUCTURED_N);
     if idx >= n {
         return None;
     }
@@ -392,7 +398,7 @@ fn structured(idx: u64) -> Option<String> {
     let t = TL[i % TL.len()];
     Some(format!("{p}{w}({k}{q}){t}"))
 }
-const STRUCTURED_N: u64 = 9 * 7 * 16 * 7 * 6;
+const STRUCTURED_N: u64 = 11 * 7 * 16 * 7 * 6;
 
 fn random_line(rng: &mut Rng) -> String {
     const PIECES: [&str; 30] = [
